@@ -6,6 +6,8 @@ import (
 	"go/token"
 	"go/types"
 	"golang.org/x/tools/go/cfg"
+	"os"
+	"path/filepath"
 	"strings"
 
 	"verif/checker/core"
@@ -764,6 +766,76 @@ func runR193(c *core.Ctx) {
 		return true
 	})
 	c.Check(nHosts > 0 && provenance == "", rel, fcName, "the chosen host is an announced host that passed the filter", fc.Pos(), "", provenance+" (or no host is ever returned)")
+	// 1a. (modules whose go directive is below 1.22, where a range variable is one variable for the whole loop) the host
+	// handed to the callback is the address of the walk's loop variable: a callback that keeps it must stop the walk at
+	// once, or the next iteration overwrites what the kept pointer points to
+	if goBelow122(c) {
+		keptOK, kept := true, 0
+		for _, lit := range core.AllFuncLits(fc.Body) {
+			call, ok := par[lit].(*ast.CallExpr)
+			if !ok || iter == nil || core.Callee(inf, call) != iter || len(lit.Type.Params.List) == 0 || len(lit.Type.Params.List[0].Names) == 0 {
+				continue
+			}
+			hostParam := inf.Defs[lit.Type.Params.List[0].Names[0]]
+			core.NewFlow(c.M, inf, lit.Body).Run(&core.Automaton{
+				AtEnd: true,
+				Node: func(st int, n ast.Node) int {
+					if as, ok := n.(*ast.AssignStmt); ok && len(as.Lhs) == len(as.Rhs) {
+						for i := range as.Lhs {
+							if core.ObjOf(inf, as.Rhs[i]) == hostParam && hostParam != nil {
+								if o := core.ObjOf(inf, as.Lhs[i]); o != nil && !(core.ObjPos(o) > lit.Pos() && core.ObjPos(o) < lit.End()) {
+									kept++
+									st = 1
+								}
+							}
+						}
+					}
+					if r, ok := n.(*ast.ReturnStmt); ok && st == 1 {
+						stop := false
+						if len(r.Results) == 1 {
+							if cv := core.ConstOf(inf, r.Results[0]); cv != nil && cv.ExactString() == "false" {
+								stop = true
+							}
+						}
+						if !stop {
+							keptOK = false
+						}
+					}
+					return st
+				},
+			})
+		}
+		// the walk written in place: chosen = &host must leave the loops before the next iteration
+		for o, rs := range rangeOf {
+			if rs.Key == nil || core.ObjOf(inf, rs.Key) != o {
+				continue
+			}
+			if wsel, ok := core.Unparen(rs.X).(*ast.SelectorExpr); !ok || wsel.Sel.Name != "Weights" {
+				continue
+			}
+			core.NewFlow(c.M, inf, fc.Body).Run(&core.Automaton{
+				Block: func(st int, b *cfg.Block) int {
+					if st == 1 && b.Stmt == ast.Stmt(rs) && b.Kind == cfg.KindRangeLoop {
+						keptOK = false
+					}
+					return st
+				},
+				Node: func(st int, n ast.Node) int {
+					if as, ok := n.(*ast.AssignStmt); ok && len(as.Lhs) == len(as.Rhs) {
+						for i := range as.Lhs {
+							if u, ok := core.Unparen(as.Rhs[i]).(*ast.UnaryExpr); ok && u.Op == token.AND && core.ObjOf(inf, u.X) == o {
+								kept++
+								st = 1
+							}
+						}
+					}
+					return st
+				},
+			})
+		}
+		c.Check(keptOK, rel, fcName, "a kept host pointer ends the walk", fc.Pos(), fmt.Sprintf("%d places keep the yielded host", kept),
+			"the walk goes on after the yielded host pointer was kept: with the go directive of this module below 1.22 it points at the loop variable, which the next announcement of the same node overwrites — a host of another scheme or weight is returned")
+	}
 	// 1b. nil is returned only when the selection walk chose nothing: no early return guarded by a weight sum (zero-weight
 	// hosts are still hosts: they keep their scheme's priority and are a valid answer when nothing else is eligible)
 	var early []string
@@ -1235,4 +1307,22 @@ func runR193(c *core.Ctx) {
 		})
 	}
 	c.Check(resWhy == "" && errOnNil && hostReturned, rel, "(*Client).ResolveHostnameAndContextForQuery", "no eligible host is an error, never a nil URL", rd.Pos(), "", resWhy+" (or the nil case is not tested)")
+}
+
+// goBelow122 reports whether the analysed module's go directive selects the per-loop (pre-1.22) semantics of range
+// variables.
+func goBelow122(c *core.Ctx) bool {
+	b, err := os.ReadFile(filepath.Join(c.M.Dir, "go.mod"))
+	if err != nil {
+		return true
+	}
+	for _, l := range strings.Split(string(b), "\n") {
+		f := strings.Fields(l)
+		if len(f) == 2 && f[0] == "go" {
+			var maj, min int
+			fmt.Sscanf(f[1], "%d.%d", &maj, &min)
+			return maj < 1 || (maj == 1 && min < 22)
+		}
+	}
+	return true
 }
